@@ -355,7 +355,7 @@ def c15_units(tier, seed):
 
 
 PROPS["C15"] = dict(units=c15_units, bounds_text="all dates y in 1..9998 (year symbolic), all 7 week starts; whole-week steps |n|<=8 (quick) / 100 (thorough); month/season steps |n|<=10^6; month-separated week stepping: single steps +1/-1/0 from every week (composition by induction on positions)",
-                    outside="month-separated stepping around October 1582 (Sep-Nov 1582 excluded); multi-step Next(n,true) is covered only through the one-step law")
+                    outside="month-separated stepping around October 1582 (Sep-Nov 1582 excluded); multi-step Next(n,true): |n| <= 3 in one call compared with single steps, larger n through the one-step law and the call's own loop")
 
 
 def jie23_units(pid, tier):
